@@ -45,6 +45,9 @@ macro_rules! aligned {
         pub struct $name<const L: usize>(pub [Cell<u8>; L]);
         impl<const L: usize> Drop for $name<L> {
             fn drop(&mut self) {
+                if L > 0 {
+                    talloc::note_destructed_at(self as *const Self as usize, stringify!($name));
+                }
                 talloc::bypass(|| DLOG.with(|d| d.borrow_mut().push((L, $a))));
             }
         }
